@@ -12,10 +12,16 @@ def gen_align(tier, rng):
         arity = rng.choice([1, 2, 2, 3, 4])
         fn = rng.choice(["align_polynomials", "align_shape", "align_indeterminants", "align_exponents"])
         if fn in ("align_polynomials", "align_shape"):
-            base = rng.choice([(), (2,), (2, 2), (1, 2), (2, 1)])
+            # shapes that broadcast to a common target, incl. stretching of non-leading size-1 axes ((2,1) against (1,2))
+            target = rng.choice([(), (2,), (2, 2), (2, 3), (2, 2, 3)])
             shapes = []
             for _k in range(arity):
-                shapes.append(rng.choice([base, (), base[-1:] if base else (), (1,) * len(base)]))
+                cut = rng.randint(0, len(target))
+                sub = list(target[cut:])
+                for d in range(len(sub)):
+                    if rng.random() < 0.4:
+                        sub[d] = 1
+                shapes.append(tuple(sub))
         else:
             shapes = [rng.choice([(), (2,), (2, 2)]) for _k in range(arity)]
         ops = []
